@@ -51,6 +51,7 @@ pub struct ConnRec {
     pub dispatch_seq: u64,
     pub send_failed: u32,
     pub calls: u32,
+    pub call_seq: u64,
     pub call_inst: Option<usize>,
     pub finished: bool,
     /// lost legitimately (queued at a worker that shut down / died, or its call panicked)
@@ -685,6 +686,7 @@ impl<S: PeerKey> Service<S> for HService<S> {
             let mut conns = sh.conns.borrow_mut();
             let r = &mut conns[c];
             r.calls += 1;
+            r.call_seq = sh.next_seq();
             r.call_inst = Some(i);
             if r.calls > 1 {
                 sh.violate(Violation::new("double-call", format!("connection c{c} was handed to a service twice")));
